@@ -23,7 +23,8 @@ EXPLANATION = (
     "spent), both ignoring duplicates. Gap maintenance: after every history update ensure_address_gap runs for "
     "the address's chain; the gap is the trailing run of unused addresses (rules shared with C06)."
 )
-TECHNIQUE = "static analysis: lock-scope check, must-precede ordering, who-may-call, exact guard dominance of row insertion, shared query-definition rules"
+EXACTNESS = "Second pass (DESIGN.md §10, exactness / completeness halves) — every notification and every subscribed address schedules an update, prefix logic of the history diff, input linking against batch / stored outputs / stored transaction under exact conditions, verdict exactness, `used_times` = entry count, address-manager lookup before gap maintenance, batching and fetching of every requested transaction; output type column shared from C15 (C09-D7)."
+TECHNIQUE = "static analysis: lock-scope check, must-precede ordering, who-may-call, exact guard dominance of row insertion, shared query-definition rules; exact fact-set comparison of the tests dominating each effect and refusal (effect / refusal tables), fall-through path queries"
 NOT_DECIDED = ("equality of the stored history/balance/UTXO set with the server's for all histories and notification orders, and discovery "
                "within the gap limit — emergent behaviour of the whole loop; only its structural skeleton is decided")
 ASSUMPTIONS = ["asyncio.Lock is fair enough that a waiting update eventually runs; the server's get_history is the reference history"]
